@@ -211,6 +211,20 @@ def fam_fseq(g, t, W):
                 ea, eb = _encodings(3, *a)[k % 3], _encodings(2 * W + 1, *b)[(k // 3) % 3]
                 k += 1
                 g.wr("fseq2d", t, sh, [F(*ea[1:]), F(*eb[1:])], [0, 1, 2, 3, 4], ["scalar", "same"] + (["tensor", "eval"] if g.full and k % 4 == 0 else []), 0, 0.07)
+        # all rows with a column range whose extent equals the ROW count (and the transposed situation): the overload that returns the
+        # tensor itself for a full selection must not be chosen from the wrong extent
+        k = 0
+        for b in ((1, 4, 1), (2 * W - 2, 2 * W + 1, 1), (0, 5, 2)):
+            if not (0 <= b[0] < b[1] <= 2 * W + 1):
+                continue
+            for enc in range(3):
+                ea, eb = _encodings(3, 0, 3, 1)[enc], _encodings(2 * W + 1, *b)[(enc + k) % 3]
+                g.wr("fseq2d", t, sh, [F(*ea[1:]), F(*eb[1:])], [0, 1, 2, 3, 4], ["scalar", "same"], 0, 0.07)
+            k += 1
+        sht = (2 * W + 1, 3)
+        for enc in range(3):
+            ea, eb = _encodings(2 * W + 1, 1, 4, 1)[enc], _encodings(3, 0, 3, 1)[(enc + 1) % 3]
+            g.wr("fseq2d", t, sht, [F(*ea[1:]), F(*eb[1:])], [0, 1, 2, 3, 4], ["scalar", "same"], 0, 0.07)
     # rank 3 on (2,3,W+1)
     if t in ("f64", "i32") and (g.tier == "thorough" or t == "f64"):
         sh = (2, 3, 2 * W + 1)
